@@ -297,6 +297,16 @@ theorem carried_of (attached got : HMap)
   · exact Or.inl hk
   · exact Or.inr (h k hk)
 
+/-- the Bool oracle `exactly` from the same per-name statement -/
+theorem exactly_of (attached got : HMap)
+    (h : ∀ k, k ∉ Spec.Call.protocolNames → HMap.getAll k got = HMap.getAll k attached) :
+    Spec.Call.exactly attached got = true := by
+  simp only [Spec.Call.exactly, List.all_eq_true, Bool.or_eq_true, List.contains_iff_mem, beq_iff_eq]
+  intro k _
+  by_cases hk : k ∈ Spec.Call.protocolNames
+  · exact Or.inl hk
+  · exact Or.inr (h k hk)
+
 def noEncodingName (m : HMap) : Prop := HMap.getAll GRPC_ENCODING m = []
 
 theorem encoding_not_reserved : GRPC_ENCODING ∉ Spec.Metadata.reserved ∧ GRPC_ENCODING ≠ Status.GRPC_STATUS_DETAILS ∧
